@@ -1,6 +1,7 @@
 (* modelrun: reads "prop<TAB>id<TAB>input-sexp<TAB>obs-sexp" lines, evaluates the
    extracted Coq entry point, prints "id<TAB>decoded agree oracle_impl oracle_model<TAB>model-obs<TAB>branch".
    Atoms: decimal integer (possibly negative) -> VI ; xHEX -> VB ; ( ... ) -> VL. *)
+type ostring = string
 open Model
 
 let rec pos_of_int (n : int) : positive =
@@ -12,7 +13,7 @@ let int_of_n = function N0 -> 0 | Npos p -> int_of_pos p
 (* decimal string <-> Z without overflow: Horner on Coq Z *)
 let z_of_small n = if n = 0 then Z0 else if n > 0 then Zpos (pos_of_int n) else Zneg (pos_of_int (-n))
 let z_ten = z_of_small 10
-let z_of_string (s : string) : z =
+let z_of_string (s : ostring) : z =
   let neg = String.length s > 0 && s.[0] = '-' in
   let start = if neg then 1 else 0 in
   let acc = ref Z0 in
@@ -23,7 +24,7 @@ let z_of_string (s : string) : z =
   done;
   if neg then Z.opp !acc else !acc
 
-let string_of_z (x : z) : string =
+let string_of_z (x : z) : ostring =
   (* repeated division by 10 on Coq Z *)
   let neg, a = match x with Zneg p -> true, Zpos p | _ -> false, x in
   if a = Z0 then "0" else begin
@@ -45,7 +46,7 @@ let hexval c = match c with
   | '0'..'9' -> Char.code c - 48 | 'a'..'f' -> Char.code c - 87 | 'A'..'F' -> Char.code c - 55
   | _ -> failwith "bad hex"
 
-let parse (s : string) : v =
+let parse (s : ostring) : v =
   let n = String.length s in
   let pos = ref 0 in
   let rec skip () = if !pos < n && (s.[!pos] = ' ') then (incr pos; skip ()) in
